@@ -4,6 +4,7 @@ package interp
 // and the per-path entry point.
 
 import (
+	"runtime"
 	"crypto/sha256"
 	"encoding/hex"
 	"fmt"
@@ -201,6 +202,11 @@ func (sh *Shared) RunPath(h *ssa.Function, prefix []Decision, s *solver.Solver, 
 			}
 		case *abortPath:
 			res.Status, res.Reason = r.Kind, r.Reason
+			if os.Getenv("SYMGO_DEBUG") != "" && r.Kind == "goroutine-panic" {
+				buf := make([]byte, 6000)
+				buf = buf[:runtime.Stack(buf, false)]
+				fmt.Fprintf(os.Stderr, "abort at path end: %v\n%s\n", r, buf)
+			}
 		default:
 			res.Status, res.Reason = "panic", panicString(r)
 		}
